@@ -10,8 +10,9 @@
      K17g     the drifted file is not `aggregate_raw sep (ids × bodies)`: something outside the
               section bodies was edited as well                                        (see [canonical])
      K17c     cursor rule files (every drift)       K17d n   prompt source file not named *.prompt.md
-     K17e, K17i: overlay-kind conflict and "skipped not reported when a branch is created" — runtime
-              residue, decided by the end-to-end oracle only. *)
+     K17e, K17j, K17i: patch overlay in the chosen scope, proposal shadowed by a higher-precedence
+              overlay, "skipped not reported when a branch is created" — runtime residue outside the
+              model, decided by the end-to-end oracle only. *)
 From AP Require Import Base.Str Gen.Tables Model.Markers Proofs.MarkersP.
 Open Scope N_scope.
 
